@@ -515,8 +515,14 @@ class C31(Prop):
                 elif mode < 0.2:
                     is_circ = not circ
                     valid = False
-                yield {"fn": "sort_pairs", "lines": lines, "check": check, "circ": is_circ,
-                       "valid": valid}
+                case = {"fn": "sort_pairs", "lines": lines, "check": check, "circ": is_circ,
+                        "valid": valid}
+                if rng.random() < 0.55:
+                    # 3-5 rows: extra rows carry integer tags that must follow their line
+                    # (tags kept disjoint from the labels: the code bincounts the whole array)
+                    case["extra"] = [[rng.randint(100, 400) for _ in lines]
+                                     for _ in range(rng.randint(1, 3))]
+                yield case
             elif r < 0.885:
                 N, L = rng.choice(PLANE_NORMALS + PLANE_NORMALS[:2])
                 u, w = _plane_basis(N)
@@ -621,6 +627,8 @@ class C31(Prop):
             return {"ok": [bool(x) for x in r]}
         if fn == "sort_pairs":
             lines = np.array(case["lines"], dtype=int).T
+            if case.get("extra"):
+                lines = np.vstack([lines, np.array(case["extra"], dtype=int)])
             try:
                 s, ind = sort_points.sort_point_pairs(lines, check_circular=case["check"],
                                                       is_circular=case["circ"])
@@ -628,8 +636,12 @@ class C31(Prop):
                 return {"err": "AssertErr"}
             except IndexError:
                 return {"err": "IndexErr"}
-            return {"sorted": [[int(s[0, j]), int(s[1, j])] for j in range(s.shape[1])],
-                    "ind": [int(i) for i in ind]}
+            assert s.shape == lines.shape
+            out = {"sorted": [[int(s[0, j]), int(s[1, j])] for j in range(s.shape[1])],
+                   "ind": [int(i) for i in ind]}
+            if case.get("extra"):
+                out["extra"] = [[int(x) for x in s[r]] for r in range(2, s.shape[0])]
+            return out
         if fn == "sort_line":
             r = sort_points.sort_points_on_line(np.array(case["pts"], dtype=float).T)
             return [int(i) for i in r]
@@ -747,11 +759,21 @@ class C31(Prop):
                     if e != r:
                         return f"point {p}: all inequalities {e}, returned {r}"
         elif fn == "sort_pairs":
-            if case["valid"]:
+            if case.get("extra"):
+                self._stat("sort_pairs-extra-rows")
+            if case["valid"] and "err" in res:
+                return (f"a single {'cycle' if case['circ'] else 'chain'} {case['lines']} "
+                        f"(extra rows {case.get('extra')}) raised {res['err']}")
+            if "err" not in res:
                 lines = case["lines"]
-                if "err" in res:
-                    return f"a single {'cycle' if case['circ'] else 'chain'} {lines} raised {res['err']}"
                 s, ind = res["sorted"], res["ind"]
+                if sorted(ind) == list(range(len(lines))) and case.get("extra"):
+                    for r, (row_in, row_out) in enumerate(zip(case["extra"], res["extra"])):
+                        for k, i in enumerate(ind):
+                            if row_out[k] != row_in[i]:
+                                return (f"extra row {r + 2}, column {k}: {row_out[k]} does not follow "
+                                        f"its line {lines[i]} (tag {row_in[i]}); input {lines} + "
+                                        f"{case['extra']}, output {s} + {res['extra']}")
                 if sorted(ind) != list(range(len(lines))):
                     return f"sort_ind {ind} is not a permutation"
                 for k, i in enumerate(ind):
@@ -760,7 +782,7 @@ class C31(Prop):
                 for k in range(len(s) - 1):
                     if s[k][1] != s[k + 1][0]:
                         return f"columns {k},{k + 1} do not chain: {s}"
-                if case["circ"] and s[0][0] != s[-1][1]:
+                if case["valid"] and case["circ"] and s[0][0] != s[-1][1]:
                     return f"cycle not closed: {s}"
         elif fn == "sort_plane":
             pts = case["pts"]
